@@ -4857,6 +4857,62 @@ def c06_new_pop_exec(q, G=2):
     return go()
 
 
+def c18_subsample_draw():
+    """LowPass.subsample_genotypes_1D: the random reordering of the called genotypes.  Library axioms (numpy.random.Generator documentation):
+    permuted(x, axis=1) permutes every row independently and returns a new array; shuffle(x, axis=1) and permutation(x, axis=1) apply ONE
+    permutation of the columns to all rows.  Contract on every random call site of the function (at least one): it is rng.permuted(loci, axis=1)
+    -- an independent draw of individuals at every locus -- and its result is what gets sliced.  Mechanical extraction: the call expression only,
+    evaluated with `loci_with_calls` an opaque array; other free names make the obligation undecided."""
+    oid = 'C18/LowPass.py:subsample_genotypes_1D/draw'
+    fn = 'dadi/LowPass/LowPass.py::subsample_genotypes_1D'
+    out = []
+    mod = ModInfo.load('dadi/LowPass/LowPass.py')
+    node = mod.funcs.get('subsample_genotypes_1D')
+    if node is None:
+        return [struct(oid, False, 'function not found', fn, undecided=True)]
+    rnd = ('permuted', 'shuffle', 'permutation', 'choice', 'choices', 'sample', 'integers', 'randint', 'random')
+    sites = [c for c in ast.walk(node) if isinstance(c, ast.Call) and isinstance(c.func, ast.Attribute) and c.func.attr in rnd]
+    out.append(struct(oid + '.sites', len(sites) >= 1, '%d random call(s) in the function' % len(sites), fn, finding_key='C18/subsample-draw'))
+    for si, call in enumerate(sites):
+        o = '%s.site%d' % (oid, si)
+        m = call.func.attr
+        kws = {k.arg: k.value for k in call.keywords}
+        axis = kws.get('axis', call.args[1] if len(call.args) > 1 else None)
+        axis_v = axis.value if isinstance(axis, ast.Constant) else None
+        if m == 'permuted':
+            ok = axis_v == 1 and len(call.args) >= 1 and 'out' not in kws
+            out.append(struct(o, ok, 'rng.permuted(loci, axis=1): every locus permuted independently' if ok else 'permuted with axis=%r' % (axis_v,), fn,
+                              finding_key='C18/subsample-draw'))
+        elif m in ('shuffle', 'permutation'):
+            out.append(struct(o, False, 'rng.%s applies one permutation of the individuals to every locus: the loci are not subsampled independently' % m, fn,
+                              finding_key='C18/subsample-draw'))
+        else:
+            out.append(struct(o, False, 'a draw this contract does not cover: %s' % m, fn, undecided=True))
+    # the value that is sliced to n_subsampling // 2 columns is the permuted array
+    perm_names = set()
+    for st in ast.walk(node):
+        if isinstance(st, ast.Assign) and isinstance(st.value, ast.Call) and isinstance(st.value.func, ast.Attribute) and st.value.func.attr == 'permuted':
+            perm_names |= {t.id for t in st.targets if isinstance(t, ast.Name)}
+    appended = [c.args[0] for c in ast.walk(node) if isinstance(c, ast.Call) and isinstance(c.func, ast.Attribute) and c.func.attr == 'append' and c.args]
+
+    def base_name(e):
+        while isinstance(e, ast.Subscript):
+            e = e.value
+        if isinstance(e, ast.Call) and isinstance(e.func, ast.Attribute) and e.func.attr == 'permuted':
+            return '<permuted>'
+        return e.id if isinstance(e, ast.Name) else None
+    inputs = {c.args[0].id for c in sites if c.args and isinstance(c.args[0], ast.Name)}
+    if appended:
+        bases = [base_name(a) for a in appended]
+        okb = all(b in perm_names | {'<permuted>'} for b in bases)
+        stale = [b for b in bases if b in inputs and b not in perm_names]
+        out.append(struct(oid + '.uses-permuted', okb, 'the collected columns are taken from the permuted array' if okb else
+                          ('columns are taken from %s, the array handed to the random call, not from its permuted result' % stale if stale else
+                           'cannot tell where the collected columns %s come from' % bases), fn, finding_key='C18/subsample-draw',
+                          undecided=(not okb and not stale)))
+    return out
+
+
 def c18_part_inbreeding():
     """LowPass.part_inbreeding_probability(parts, F) for 0 < F < 1 (BetaBinomln uninterpreted): partition i with genotype counts (n00, n01, n11) of n
     individuals has weight   n!/(n00! n01! n11!) * p00^n00 p01^n01 p11^n11,   p_g = exp(BetaBinomln(g, 2, alpha, beta)),
